@@ -61,6 +61,11 @@ CLAIMS = {
         "Exploration: 160 (quick) / 4000 (thorough) histories, each compared step by step with fresh-process oracles (cached per worker); one defect repaired (call_Fq popped the mode from the caller's dict).",
         "The one-step history through the same driver is taken as 'first in a fresh process'; all processes of a worker share one compiled-library cache; SasView-style requests assign every parameter they depend on.",
         "DESIGN.md section 3 C11"),
+    "C12": (
+        "Hypothesis-seeded shape parameters per oriented model; oracle = spherical average of the model's own particle-frame intensity (shim Iqac/Iqabc, Gauss-Legendre x trapezoid at two resolutions) versus the 1-D kernel with shipped and with a 4x larger harness-generated Gauss rule; admissibility gate tau=1e-6, comparison at 20 tau",
+        "Exploration: 21 oriented models x 20 (quick) / 300 (thorough) parameter sets x 3-4 q with q*size in [0.1,20]; <F^2> and I compared on admissible points; inadmissible points are counted per cause; two models listed as findings.",
+        "Admissibility is a finite refinement ladder, not a proof of convergence; slow models (>2 ms per 1-D point) use a 2x rule and fewer cases.",
+        "DESIGN.md section 3 C12"),
     "C13": (
         "Hypothesis-generated parameter sets (model random() by drawn seed, defaults, coincidence-breaking perturbations) with metamorphic relations of known effect: lambda^3 / lambda / mu^2 scaling by declared unit exponents",
         "Exploration: every eligible shape:* model (42) x 40 (quick) / 800 (thorough) cases; relations on I, R_eff per mode, V_form, V_shell; three wrong unit labels repaired, five model-level deviations listed per (model, relation).",
